@@ -279,7 +279,14 @@ func (w *c08Workload) read(nd *Node) string {
 	} else {
 		fmt.Fprintf(&b, "byHeight:%s;", x.Hash().Hex()[:10])
 	}
-	if x, err := nd.DB.GetBlockByHash(nd.BC.CurrentBlock().Hash()); err != nil {
+	// by hash: the head on linear workloads; with sibling forks the head is not compared between node and twin (which
+	// sibling a node follows depends on its own history and memory, e.g. the deputies it has seen mining twice),
+	// so the read must not carry it either: the stable block then
+	target := nd.BC.CurrentBlock()
+	if !w.Linear {
+		target = st
+	}
+	if x, err := nd.DB.GetBlockByHash(target.Hash()); err != nil {
 		fmt.Fprintf(&b, "byHash:%v;", err)
 	} else {
 		fmt.Fprintf(&b, "byHash:%d;", x.Height())
